@@ -1254,7 +1254,10 @@ def run(ctx):
             from ..lib.core import LEAN
 
             l1 = c15.parse_committed_l1((LEAN / "DarsiaGen" / "QuadratureTables.lean").read_text())
-        ctx.write_gen("QuadratureTables", c15.emit(ex, c15.tabulate_corners(d), l1))
+        # emit EXACTLY what C15's own run emits (same helper functions, same arguments), so that both checks
+        # regenerate an identical file from an identical tree
+        api = c15.tabulate_api(d) if hasattr(c15, "tabulate_api") else None
+        ctx.write_gen("QuadratureTables", c15.emit(ex, c15.tabulate_corners(d), l1, api) if api is not None else c15.emit(ex, c15.tabulate_corners(d), l1))
         ctx.cov["quadrature_tables"] = "re-extracted from the current source (C15 generator)"
     except Exception as e:  # noqa: BLE001
         # NOT silent: the theorems are then about the committed table, which may no longer be what the code computes; the
